@@ -590,6 +590,12 @@ func InstrIndex(in ssa.Instruction) int {
 // can be reached from just after `from` without executing an instruction accepted by
 // `required`. Blocks ending in panic are abort paths and never reach a back edge.
 func AfterReachesBackEdgeWithout(fn *ssa.Function, from ssa.Instruction, required func(ssa.Instruction) bool) []*ssa.BasicBlock {
+	return AfterReachesBackEdgeWithoutCut(fn, from, required, nil)
+}
+
+// AfterReachesBackEdgeWithoutCut is AfterReachesBackEdgeWithout on a CFG from which the given
+// edges were deleted (used for "whenever G holds, R happens before the next iteration").
+func AfterReachesBackEdgeWithoutCut(fn *ssa.Function, from ssa.Instruction, required func(ssa.Instruction) bool, edges map[[2]int]bool) []*ssa.BasicBlock {
 	var bad []*ssa.BasicBlock
 	fb := from.Block()
 	for _, be := range BackEdges(fn) {
@@ -598,8 +604,18 @@ func AfterReachesBackEdgeWithout(fn *ssa.Function, from ssa.Instruction, require
 			continue
 		}
 		term := src.Instrs[len(src.Instrs)-1]
+		// a back edge that was itself deleted cannot be taken
+		live := false
+		for si, su := range src.Succs {
+			if su == hdr && !edges[[2]int{src.Index, si}] {
+				live = true
+			}
+		}
+		if !live {
+			continue
+		}
 		// stop at the header so that only the current iteration is examined
-		cut := Cut{Barrier: func(in ssa.Instruction) bool {
+		cut := Cut{Edges: edges, Barrier: func(in ssa.Instruction) bool {
 			return required(in) || (in.Block() == hdr && in == hdr.Instrs[0] && hdr != fb)
 		}}
 		if ReachesFrom(fn, fb, InstrIndex(from)+1, term, cut) {
